@@ -116,7 +116,11 @@ def run_grouped_write(prog, job: dict) -> dict:
         groups = []
         for gi, n in enumerate(job["sizes"]):
             groups.append([tuple(C.base(f"g{gi}s{i}", arity)[:3] + ([P.t_iri(f"G{gi}")] if arity == 4 else [])) for i in range(n)])
-        opts = P.make_options(k, logical=logical, generalized=integ == "generic", rdf_star=integ == "generic", frame_size=job["frame_size"])
+        flow_obj = None
+        if job.get("explicit_flow"):
+            # the caller supplies the grouped flow object itself (a fresh, empty flow)
+            flow_obj = k.flow("GraphsFrameFlow" if physical == 1 else "DatasetsFrameFlow")
+        opts = P.make_options(k, logical=None if flow_obj is not None else logical, generalized=integ == "generic", rdf_star=integ == "generic", frame_size=job["frame_size"], flow=flow_obj)
         if job.get("dataset_of_graphs"):
             # rdflib only: a TripleStream fed with one Dataset writes one frame per non-empty graph of it
             quads = [tuple(list(st) + [P.t_iri(f"G{gi}")]) for gi, g in enumerate(groups) for st in g]
@@ -205,11 +209,14 @@ def check(chk: Check) -> None:
                     wjobs.append(dict(integ=integ, physical=physical, logical=logical, sizes=sizes, frame_size=fs))
     for sizes in ((2, 1), (1, 2, 1)):
         wjobs.append(dict(integ="rdflib", physical=1, logical=3, sizes=sizes, frame_size=250, dataset_of_graphs=True))
+    for integ in ("generic", "rdflib"):
+        for physical, logical in ((1, 3), (2, 4)):
+            wjobs.append(dict(integ=integ, physical=physical, logical=logical, sizes=(2, 1, 2), frame_size=1, explicit_flow=True))
     for res in pmap(run_grouped_write, wjobs, min_parallel=4):
         if res is None:
             continue
         jb = res["job"]
-        inst = f"{jb['integ']} physical={jb['physical']} logical={jb['logical']} sinks={jb['sizes']} frame_size={jb['frame_size']}"
+        inst = f"{jb['integ']} physical={jb['physical']} logical={jb['logical']} sinks={jb['sizes']} frame_size={jb['frame_size']}{' explicit flow object' if jb.get('explicit_flow') else ''}"
         for p in res["paths"]:
             chk.paths += 1
             construct = f"pyjelly.integrations.{jb['integ']}.serialize.grouped_stream_to_frames:one-frame-per-sink"
